@@ -5,7 +5,7 @@
     instance on every run. *)
 From Coq Require Import NArith ZArith QArith Qabs List Bool.
 From SV Require Import Bin.Struct Fmt.DmxCodes Fmt.DmxCodesProofs Fmt.DmxBin Fmt.DmxBinProofs Fmt.DmxKv1 Fmt.DmxKv1Proofs
-  Fmt.DmxScalar Fmt.DmxScalarProofs Fmt.DmxTyped Fmt.DmxTypedProofs Text.Str Text.Escape Text.Tokenizer Text.TokGen Fmt.DmxKv2 Fmt.DmxKv2Proofs Fmt.DmxKv2Nested Fmt.DmxKv2NestedProofs Fmt.DmxKv2Inst Num.Dec6 Fmt.DmxValText Fmt.DmxValTextProofs Fmt.DmxHeader Fmt.DmxHeaderProofs Fmt.DmxMembers Fmt.DmxMembersProofs Fmt.DmxMembersParse Fmt.DmxMembersParseProofs Fmt.DmxMembersKv2 Fmt.DmxMembersKv2Proofs Fmt.DmxKv1Sel Fmt.DmxKv1SelProofs Gen.DmxCodes_gen.
+  Fmt.DmxScalar Fmt.DmxScalarProofs Fmt.DmxTyped Fmt.DmxTypedProofs Text.Str Text.Escape Text.Tokenizer Text.TokGen Fmt.DmxKv2 Fmt.DmxKv2Proofs Fmt.DmxKv2Nested Fmt.DmxKv2NestedProofs Fmt.DmxKv2Inst Num.Dec6 Fmt.DmxValText Fmt.DmxValTextProofs Fmt.DmxHeader Fmt.DmxHeaderProofs Fmt.DmxMembers Fmt.DmxMembersProofs Fmt.DmxMembersParse Fmt.DmxMembersParseProofs Fmt.DmxMembersKv2 Fmt.DmxMembersKv2Proofs Fmt.DmxKv1Sel Fmt.DmxKv1SelProofs Fmt.DmxKv2Graph Fmt.DmxKv2GraphProofs Fmt.DmxKv2GraphUnique Fmt.DmxKv2GraphFuel Fmt.DmxKv2GraphCull Fmt.DmxKv2GraphLink Fmt.DmxKv2GraphWhole Fmt.DmxPropertyBin Fmt.DmxPropertyKv2 Gen.DmxCodes_gen.
 Import ListNotations.
 
 (** The premises of the theorems below, for the configuration generated from today's source.  The check proves
@@ -17,7 +17,15 @@ Definition c14_instance_premises : bool :=
   float_text_cfg_ok gen_float_fmt && vec_text_components_ok gen_vec_text_written gen_vec_text_read &&
   color_text_ok gen_color_text_written gen_color_text_read &&
   hdr_bin_ok gen_hdr && hdr_kv2_ok gen_hdr && hdr_modes_ok gen_hdr && cnt_cfg_ok gen_cnt &&
-  kv1_sel_ok gen_kv1_reserved_sel gen_kv1_dup_sel.
+  kv1_sel_ok gen_kv1_reserved_sel gen_kv1_dup_sel && root_rule_ok gen_rootcfg && gen_kv2_name_line_always && id_written_ok gen_kv2_id_written.
+
+(** The boolean hypotheses of [c14_property_binary] and [c14_property_kv2] (round 4) for the objects generated from today's
+    source; the check proves both [= true] on every run (instance obligations [property_binary_premises_hold_today],
+    [property_kv2_premises_hold_today]). *)
+Definition c14_property_binary_premises : bool :=
+  bin_cfg_ok gen_cfg && scalar_cfg_ok gen_scalar && sizes_match_formats gen_scalar gen_cfg && cnt_cfg_ok gen_cnt.
+Definition c14_property_kv2_premises : bool :=
+  kv2_tables_ok gen_tables && kv2_opts_ok gen_kv2_opts && vtnames_ok gen_tables gen_fold gen_vtnames && root_rule_ok gen_rootcfg.
 
 (** The attribute type byte: encode then decode gives back the value type and the scalar/array flag, for all 14
     types and both shapes. *)
@@ -541,3 +549,165 @@ Theorem kv1_duplicate_test_on_real_name_is_refuted :
   to_kv1 kv_lower spelled_cfg (from_kv1_sel kv_lower spelled_cfg NFolded NFolded dup_tree) = Some dup_tree /\
   to_kv1 kv_lower spelled_cfg (from_kv1_sel kv_lower spelled_cfg NFolded NReal dup_tree) = Some (KBlock (Some [66]%N) [KLeaf [75; 69; 89]%N [50]%N]).
 Proof. exact kv1_duplicate_test_on_real_name_refuted. Qed.
+
+(** * The nested KeyValues2 layout, graph to graph (round 4)
+
+    [export_kv2] counts the uses of every element, makes the exported element, every element used more than once and every
+    element whose type is an attribute type keyword a root (a top-level block referred to by UUID) and writes the others
+    inline where they are used.  The rule is a generated object ([rootcfg], read from the source); [nest_doc] is the
+    graph -> tree of blocks step, [unnest] what the reader registers for a tree of blocks. *)
+
+(** A root rule meeting [root_rule_ok] decides exactly: flat layout, or used twice or more (the exported element
+    counts once for itself), or a keyword type, or the exported element. *)
+Theorem kv2_root_rule : forall fold vtnames c, root_rule_ok c = true -> forall flat g j,
+  is_root fold vtnames c flat g j =
+  flat || Nat.leb 2 (occ g j + (if Nat.eqb j 0 then 1 else 0)) || type_is_keyword fold vtnames (ge_type (nth j g dflt_gelem)) || Nat.eqb j 0.
+Proof. exact root_rule_spec. Qed.
+
+(** Hence an element written inline is referred to at most once in the whole graph, is not the exported element and
+    has no keyword type. *)
+Theorem kv2_non_root_used_at_most_once : forall fold vtnames c, root_rule_ok c = true -> forall flat g j,
+  is_root fold vtnames c flat g j = false ->
+  (occ g j <= 1)%nat /\ j <> 0%nat /\ type_is_keyword fold vtnames (ge_type (nth j g dflt_gelem)) = false /\ flat = false.
+Proof. exact non_root_used_at_most_once. Qed.
+
+(** Nothing is invented: for any root predicate, every block of the tree is, read back, an element of the graph — type,
+    id, name, attributes in order, every element value naming the id of its target (NULL and stubs as such). *)
+Theorem kv2_nest_only_graph_elements : forall g isroot d, nest_doc g isroot false = Some d ->
+  forall k, In k (unnest d) -> exists i, (i < length g)%nat /\ k = flat_elem (ids g) (nth i g dflt_gelem).
+Proof. exact nest_only_graph_elements. Qed.
+
+(** Every element reachable from the exported one is written (cycles included: a cycle always passes through a root). *)
+Theorem kv2_nest_complete : forall g isroot d, isroot 0%nat = true -> g <> [] -> refs_in_range g -> nest_doc g isroot false = Some d ->
+  forall j, reach g j -> In (flat_elem (ids g) (nth j g dflt_gelem)) (unnest d).
+Proof. exact nest_complete. Qed.
+
+(** A block written inline is never a root: references by id go to top-level blocks (or stubs) only, so leaving the id
+    of inline blocks out ([cull_uuid]) loses no reference. *)
+Theorem kv2_inline_blocks_are_not_roots : forall g isroot f i, Forall (fun j => isroot j = false) (List.tl (blocks g isroot f i)).
+Proof. exact inline_blocks_not_roots. Qed.
+
+(** The graph the fix-up pass builds ([link]) written out again with references by id is the document that was read, for
+    every document: [link d] is determined by [d] up to the numbering of its elements (the converse of [kv2_link_flatten]). *)
+Theorem kv2_flatten_link : forall d g, link d = Some g -> flatten g = d.
+Proof. exact flatten_link. Qed.
+
+(** [cull_uuid]: the tree written is the tree written without the option, with the id of every inline block left out; top-level
+    blocks keep theirs.  With [kv2_inline_blocks_are_not_roots] no reference names a block without id. *)
+Theorem kv2_cull_uuid_erases_inline_ids_only : forall g isroot,
+  nest_doc g isroot true = option_map (map (erase_elem true)) (nest_doc g isroot false).
+Proof. exact nest_doc_cull. Qed.
+
+(** The writer's recursion ends: below a root no chain of inline blocks is longer than the number of elements (the blocks of
+    different levels are different elements), so the tree of blocks exists. *)
+Theorem kv2_nest_total : forall g fold vtnames c, root_rule_ok c = true -> graph_ok g = true ->
+  exists d, nest_doc g (is_root fold vtnames c false g) false = Some d.
+Proof. exact nest_total. Qed.
+
+(** Sharing: with the root rule no element is written twice (an element that is not a root has one holder; the blocks are
+    counted level by level below the roots). *)
+Theorem kv2_nest_written_once : forall g fold vtnames c, root_rule_ok c = true -> graph_ok g = true ->
+  forall d, nest_doc g (is_root fold vtnames c false g) false = Some d -> written_once d = true.
+Proof. exact nest_written_once. Qed.
+
+(** The whole step: what the reader registers is a permutation of the flat document of the graph, the exported element first. *)
+Theorem kv2_nest_is_flatten_permuted : forall g fold vtnames c, root_rule_ok c = true -> graph_ok g = true ->
+  forall d, g <> [] -> (forall j, (j < length g)%nat -> reach g j) -> nest_doc g (is_root fold vtnames c false g) false = Some d ->
+  Permutation.Permutation (unnest d) (flatten g) /\ exists rest, unnest d = flat_elem (ids g) (nth 0 g dflt_gelem) :: rest.
+Proof. exact nest_is_flatten_permuted. Qed.
+
+(** The tree of blocks is one the text can carry ([ndoc_ok], the premise of [kv2_nested_roundtrip]): no inline block has a
+    keyword type — because such elements are roots. *)
+Theorem kv2_nest_carried_by_text : forall g T fold vtnames c, root_rule_ok c = true -> doc_ok T vtnames (flatten g) = true ->
+  forall d, g <> [] -> nest_doc g (is_root fold vtnames c false g) false = Some d -> ndoc_ok T fold vtnames d = true.
+Proof. exact nest_ndoc_ok. Qed.
+
+(** Example (sharing, a self reference, a cycle through an inline block, depth 2, a stub, NULL): two top-level blocks, four
+    elements, each once. *)
+Theorem kv2_nest_example :
+  graph_ok ex_graph = true /\ root_rule_ok pinned_rootcfg = true /\
+  (match nest_doc ex_graph (ex_isroot pinned_rootcfg ex_graph) false with
+   | Some d => (length d =? 2)%nat && (length (unnest d) =? 4)%nat && written_once d && ndoc_ok pinned_tables (fun s => s) pinned_vtnames d
+   | None => false
+   end) = true.
+Proof. exact ex_graph_nested. Qed.
+
+(** [count > 2] instead of [count > 1] fails [root_rule_ok]; an element used twice is then written inline twice and the
+    reader gets two elements for one (refutation witness for the class "threshold of the use count"). *)
+Theorem kv2_late_root_rule_refuted :
+  root_rule_ok late_rootcfg = false /\
+  (match nest_doc ex_shared (ex_isroot late_rootcfg ex_shared) false with
+   | Some d => (length (unnest d) =? 3)%nat && negb (written_once d)
+   | None => false
+   end) = true /\
+  (match nest_doc ex_shared (ex_isroot pinned_rootcfg ex_shared) false with
+   | Some d => (length (unnest d) =? 2)%nat && written_once d
+   | None => false
+   end) = true.
+Proof. exact late_root_rule_refuted. Qed.
+
+(** An inline block starts with the name of the attribute that holds it: without its name line an element with an empty
+    name comes back named after the attribute (the class of seeded fault c14_6; obligation [kv2_name_line_written_for_every_element]). *)
+Theorem kv2_nameless_inline_block_takes_attribute_name_refuted :
+  parsen_tokens (fun s => s) pinned_vtnames nameless_inline_tokens =
+  Some [NElem [84%N] None [] [NAttr [99%N] s_element false [NInline (NElem [67%N] None [99%N] [])]]].
+Proof. exact nameless_inline_block_takes_attribute_name. Qed.
+
+(** * The whole property, one statement per encoding (round 4) *)
+
+(** Binary (versions 0-5).  For every codec pair, every configuration meeting the named conditions and every angle
+    normalisation that is the identity below 360: take the real dicts [rd] of the elements (keys pairwise distinct and
+    casefolded: every history of the mapping API, theorems 49 and 64) whose values are the packed form of the typed
+    values [td] (representable in their wire types), expressible in version [v].  The bytes [export_binary] writes from
+    the dicts parse to a document that (1) unpacks to exactly [td] — types, names, UUIDs, attribute names with their
+    casing, order, value types, shapes, values, references by index (sharing, cycles), NULL, stubs — and (2) gives the
+    reader dicts that are the canonical form of the dicts exported. *)
+Theorem c14_property_binary :
+  forall (cenc : enc -> DmxBin.str -> bytes) (cdec : enc -> bytes -> option DmxBin.str) (cfg : dmxcfg) (scfg : scalarcfg) (cc : cntcfg)
+         (fold : DmxBin.str -> DmxBin.str) (anorm : N -> N),
+    bin_cfg_ok cfg = true -> scalar_cfg_ok scfg = true -> sizes_match_formats scfg cfg = true -> cnt_cfg_ok cc = true ->
+    (forall b, (b < ANGLE_360)%N -> anorm b = b) ->
+    forall (v : N) (rd : rdoc) (td : tdoc),
+      Forall (fun r => keys_nodup (r_members r)) rd -> Forall (fun r => keyed_by_fold fold (r_members r)) rd ->
+      tdoc_rep fdiv64 scfg td -> lower_doc fmul64 scfg td = Some (map (abstract cc) rd) ->
+      expressible cenc cdec cfg v (map (abstract cc) rd) ->
+      exists d, parse_bin cdec cfg v (export_raw cenc cfg cc v rd) = Some d /\
+                lift_doc fdiv64 anorm scfg d = Some td /\
+                map (parsed_members fold KFolded) d = map (fun r => canonical cc (r_members r)) rd.
+Proof. exact c14_property_binary_gen. Qed.
+
+Theorem c14_property_binary_premises_satisfiable :
+  bin_cfg_ok good_cfg = true /\ scalar_cfg_ok pinned_scalar = true /\ sizes_match_formats pinned_scalar good_cfg = true /\
+  cnt_cfg_ok good_cnt = true /\
+  Forall (fun r => keys_nodup (r_members r)) hist_rdoc /\ Forall (fun r => keyed_by_fold (fun s => s) (r_members r)) hist_rdoc /\
+  tdoc_rep fdiv64 pinned_scalar hist_tdoc /\ lower_doc fmul64 pinned_scalar hist_tdoc = Some (map (abstract good_cnt) hist_rdoc) /\
+  expressible idenc iddec good_cfg 5 (map (abstract good_cnt) hist_rdoc).
+Proof. exact c14_property_binary_example. Qed.
+
+(** KeyValues2.  For all tokenizer tables / options / casefold / keyword list / root rule meeting the named conditions and
+    every element graph [g] (ids pairwise distinct, references in range, stub ids not element ids; strings the format can
+    carry: [doc_ok]; every element reachable from the exported one): flat layout — the exported text, tokenized, parsed and
+    linked is [g]; nested layout — the tree of blocks [d] the root rule gives is parsed back from its text, contains every
+    element exactly once (sharing, cycles: by reference to a top-level block), the exported one first, and the elements
+    the reader registers are, up to order, the flat document of [g], whose references resolve to [g]; the graph [g'] the fix-up
+    pass builds from them has that document as its flat document — [g'] and [g] are the same graph up to the order in which
+    the elements are listed. *)
+Theorem c14_property_kv2 :
+  forall (T : tables) (o : opts) (fold : Str.str -> Str.str) (vtnames : list Str.str) (c : rootcfg),
+    kv2_tables_ok T = true -> kv2_opts_ok o = true -> vtnames_ok T fold vtnames = true -> root_rule_ok c = true ->
+    forall g : gdoc, graph_ok g = true -> doc_ok T vtnames (flatten g) = true -> g <> [] -> (forall j, (j < length g)%nat -> reach g j) ->
+      match parse_text T o fold vtnames (render_doc T (flatten g)) with Some d => link d | None => None end = Some g /\
+      exists d, nest_doc g (is_root fold vtnames c false g) false = Some d /\
+        parsen_text T o fold vtnames (rendern_doc T d) = Some d /\
+        written_once d = true /\
+        Permutation.Permutation (unnest d) (flatten g) /\
+        (exists rest, unnest d = flat_elem (ids g) (nth 0 g dflt_gelem) :: rest) /\
+        (exists g', link (unnest d) = Some g' /\ flatten g' = unnest d) /\
+        link (flatten g) = Some g.
+Proof. exact c14_property_kv2_gen. Qed.
+
+Theorem c14_property_kv2_premises_satisfiable :
+  kv2_tables_ok pinned_tables && kv2_opts_ok pinned_kv2_opts && vtnames_ok pinned_tables (fun s => s) pinned_vtnames &&
+  root_rule_ok pinned_rootcfg && graph_ok ex_graph && doc_ok pinned_tables pinned_vtnames (flatten ex_graph) = true /\
+  (forall j, (j < length ex_graph)%nat -> reach ex_graph j).
+Proof. exact c14_property_kv2_example. Qed.
